@@ -296,6 +296,53 @@ func cliStage(r *mon.Run, ps map[string]*party) {
 	}
 	cliMulti(r, ps, age, work)
 	cliNearTag(r, ps, age, work)
+	cliUnsupported(r, ps, age, work)
+}
+
+// cliUnsupportedPEM is an encrypted OpenSSH key file holding an ECDSA key.
+var cliUnsupportedPEM []byte
+
+// cliUnsupported: `age -d -i KEY` where KEY holds an ECDSA key and KEY.pub an
+// Ed25519 key. The embedded (ECDSA) public key is authoritative for an
+// OpenSSH-format file, so the tool may refuse the identity outright or ask and
+// then fail; required: non-zero exit, no output, at most one prompt.
+func cliUnsupported(r *mon.Run, ps map[string]*party, age, work string) {
+	if cliUnsupportedPEM == nil {
+		return
+	}
+	dir := filepath.Join(work, "unsupported")
+	os.MkdirAll(dir, 0o755)
+	os.WriteFile(filepath.Join(dir, "KEY"), cliUnsupportedPEM, 0o600)
+	os.WriteFile(filepath.Join(dir, "KEY.pub"), keys.Data("enc_ed1.pub"), 0o644)
+	f := buildFile("cli-unsupported", "D", ps["enc_ed1"], ps["enc_ed1"], ps["enc_ed1"])
+	os.WriteFile(filepath.Join(dir, "in.age"), f.file, 0o600)
+	res := cli.Run(&cli.Cmd{Argv: []string{age, "-d", "-i", "KEY", "-o", "out", "in.age"}, Dir: dir, TTY: true, Timeout: 60 * time.Second,
+		Script: []cli.TTYStep{{Expect: "Enter passphrase", Send: keys.Passphrase + "\n"}}})
+	r.Eval(1)
+	r.Count("cli_unsupported_key_runs", 1)
+	r.Distinct("cli-unsupported|ecdsa key file with an ed25519 .pub")
+	if res.Err != nil {
+		r.Inconclusive("CLI stage: driver failure on the ECDSA key run: %v", res.Err)
+		return
+	}
+	prompts := bytes.Count(res.TTYOut, []byte("Enter passphrase"))
+	_, oerr := os.Stat(filepath.Join(dir, "out"))
+	r.Tab("cli_unsupported_key_outcome", fmt.Sprintf("exit %d, %d prompt(s), timed out %v", res.Exit, prompts, res.TimedOut))
+	key := ""
+	switch {
+	case res.TimedOut:
+		key = "never-returned"
+	case res.Exit == 0:
+		key = "exit-0"
+	case oerr == nil:
+		key = "output-left-after-failure"
+	case prompts > 1:
+		key = fmt.Sprintf("prompts=%d", prompts)
+	}
+	if key != "" {
+		r.Violate("cli-unsupported-stored-key:"+key, fmt.Sprintf("age -d -i KEY (encrypted ECDSA key, Ed25519 KEY.pub) on a file addressed to the .pub's key: exit %d, %d prompt(s), timed out %v; stderr %q",
+			res.Exit, prompts, res.TimedOut, mon.Trunc(res.Stderr, 300)), map[string]any{"stage": "cli, key of an unsupported type", "key_file_pem": string(cliUnsupportedPEM), "exit": res.Exit})
+	}
 }
 
 // cliNearTag: a file whose only stanza of the key's type carries a longer
